@@ -712,10 +712,11 @@ func genMarshalRT(ctx *Ctx, emit func(any, string)) {
 // family marshaljunk
 
 type JKInput struct {
-	Recv  *JNode   `json:"recv,omitempty"`  // nil: uninitialised receiver
-	Mutex bool     `json:"mutex,omitempty"` // initialised receiver with its mutex enabled
-	VPol  bool     `json:"vpol,omitempty"`  // initialised receiver whose own validity policy is failing (it is initialised all the same)
-	In    []*JNode `json:"in"`
+	Recv    *JNode   `json:"recv,omitempty"`    // nil: uninitialised receiver
+	Mutex   bool     `json:"mutex,omitempty"`   // initialised receiver with its mutex enabled
+	Rebuilt bool     `json:"rebuilt,omitempty"` // the receiver's slice was rebuilt by an Insert at the front and a Remove (same content, tight array)
+	VPol    bool     `json:"vpol,omitempty"`    // initialised receiver whose own validity policy is failing (it is initialised all the same)
+	In      []*JNode `json:"in"`
 }
 
 func jkClass(in []*JNode) string {
@@ -782,6 +783,10 @@ func runMarshalJunk(raw json.RawMessage) (*Result, error) {
 		r = in.Recv.Build().(stk.Stack)
 		if in.Mutex {
 			r.SetMutex()
+		}
+		if in.Rebuilt {
+			r.Insert("scratch", 0)
+			r.Remove(0)
 		}
 		if in.VPol {
 			r.SetValidityPolicy(func(...any) error { return fmt.Errorf("the receiver's validity policy fails") })
@@ -1180,6 +1185,7 @@ func genMarshalJunk(ctx *Ctx, emit func(any, string)) {
 		emit(&JKInput{Recv: &JNode{T: "stack", Kind: "AND", Els: []*JNode{jstr("old")}}, In: in}, "exhaustive")
 		emit(&JKInput{Recv: &JNode{T: "stack", Kind: "AND", Els: []*JNode{jstr("old")}}, Mutex: true, In: in}, "exhaustive")
 		emit(&JKInput{Recv: &JNode{T: "stack", Kind: "OR", Cap: 2, Els: []*JNode{jstr("old")}}, VPol: true, In: in}, "exhaustive")
+		emit(&JKInput{Recv: &JNode{T: "stack", Kind: "LIST", Cap: 4, Els: []*JNode{jstr("old"), jint(2)}}, Rebuilt: true, In: in}, "exhaustive")
 	}
 	// exhaustive: every list of length 1..3 over the 10-symbol alphabet
 	// (three symbols are lists, so nesting depth 2), bare and for length <= 2
@@ -1209,7 +1215,7 @@ func genMarshalJunk(ctx *Ctx, emit func(any, string)) {
 			in = []*JNode{top} // Marshal(u) form
 		}
 		rc := g.receiver()
-		emit(&JKInput{Recv: rc, Mutex: rc != nil && g.r.Pct(35), VPol: rc != nil && g.r.Pct(30), In: in}, "random")
+		emit(&JKInput{Recv: rc, Mutex: rc != nil && g.r.Pct(35), VPol: rc != nil && g.r.Pct(30), Rebuilt: rc != nil && g.r.Pct(40), In: in}, "random")
 	}
 }
 
